@@ -64,10 +64,10 @@ theorem lenAdd_of_le {a b : Nat} (h : a + b ≤ MAX_LEN) : lenAdd a b = .ok (a +
 /-! ## reader invariant -/
 
 /-- positions inside the input, input not longer than `Length::MAX`; a nested reader never has more
-left than its parent -/
+left than its parent and has consumed no more than its parent has -/
 def Rdr.WF : Rdr → Prop
   | .slice b p => p ≤ b.length ∧ b.length ≤ MAX_LEN
-  | .nested i n p => i.WF ∧ p ≤ n ∧ n - p ≤ i.inputLen - i.position
+  | .nested i n p => i.WF ∧ p ≤ n ∧ n - p ≤ i.inputLen - i.position ∧ p ≤ i.offset
 
 theorem Rdr.WF.offset_le {r : Rdr} (h : r.WF) : r.offset ≤ r.input.length := by
   induction r with
